@@ -18,6 +18,8 @@ DECIDED = ('(a) the candidate list handed to the router evaluates to [verb, GET,
            'Given dict/list semantics these premises imply the statement for the route selected by C01.')
 DECIDED_MORE = ('Also: request.method is computed from the environ on every read (no memo).')
 DECIDED = DECIDED + ' ' + DECIDED_MORE
+DECIDED_R6 = ('Round 6: candidate list evaluated with module constants in scope; every header handed to the response constructor is stored (Allow="" included); the candidate loop may live in resolve() (lookup() returning None): 405 then needs the is-None edge of a search loop that binds None in its else-branch only.')
+DECIDED = DECIDED + ' ' + DECIDED_R6
 NOT_DECIDED = 'which route the path selects (C01).'
 ASSUMPTIONS = ['dict and list behave as in CPython', 'C01 selects the route']
 
